@@ -589,8 +589,9 @@ def parse_arecords(s):
 
 
 def api_ops(rng, stable_start):
-    """a history of 1..3 frames mixing the four entry points; [stable_start]: the context is in stable-input mode when a frame
-    starts, so no frame is started by a wrapper (that is the separate observation KEY_W4, covered by the targeted histories)"""
+    """a history of 1..3 frames mixing the four entry points; [stable_start]: the context is in stable-input mode when the
+    history starts.  Since fix 9a6b24a a frame may be started by a wrapper in stable-input mode too (round 3: half of the
+    stable-input frames start with whatever op comes first, the other half with a ZSTD_compressStream2 call as before)"""
     ops = []
     si = stable_start
     for f in range(rng.choice([1, 1, 2, 3])):
@@ -602,9 +603,10 @@ def api_ops(rng, stable_start):
         if rng.random() < 0.1:
             ops.append("p%d=%d" % (PID["checksum"], rng.choice([0, 1])))
         started = False
+        cfirst = rng.random() < 0.5
         for _ in range(rng.randint(0, 8)):
             r = rng.random()
-            if r < 0.35 or (si and not started and r < 0.8):
+            if r < 0.35 or (si and cfirst and not started and r < 0.8):
                 ops.append("c%s:%s:%d" % (rng.choice(A_IN), rng.choice(A_CAP), rng.choice([0, 0, 0, 1])))
                 started = True
             elif r < 0.5:
@@ -623,7 +625,7 @@ def api_ops(rng, stable_start):
             else:
                 ops.append("c%s:%s:2" % (rng.choice(A_IN), rng.choice(A_CAP)))
                 started = True
-        if si and not started:
+        if si and cfirst and not started:
             ops.append("c%s:%s:0" % (rng.choice(A_IN), rng.choice(A_CAP)))
         style = rng.random()
         if style < 0.4:
@@ -663,9 +665,16 @@ def api_targeted():
         for nb in (1, 2):
             out.append(dict(x=x, params={"stableIn": 1, "nbWorkers": nb, "jobSize": 1, "windowLog": 10}, ops=tail, extra="", mt=True, kind="targeted",
                             desc="multithreaded: " + tail))
-    # the observation KEY_W4: a frame started by a wrapper in stable-input mode
+    # KEY_W4 (repaired by 9a6b24a): a frame started by a wrapper in stable-input mode, then the caller's real buffer
     out.append(dict(x=x, params={"stableIn": 1}, ops="fr;c1000:r:0;er", extra="", mt=False, kind="targeted", desc="flushStream before the first input (stable input)"))
     out.append(dict(x=x, params={"stableIn": 1}, ops="e1;e1;c1000:r:2", extra="", mt=False, kind="targeted", desc="endStream in pieces, then compressStream2 (stable input)"))
+    # round 3: second doors of 9a6b24a - the wrapper-started frame continues with every entry point, tiny rooms, several frames, workers
+    for tail in ("s0:r;fr;s1:r;er", "fr;s1000:r;f3;fr;er", "f0;c5000:r:0;f3;fr;er", "fr;c5000:3:0;f3;c100:r:0;f1;fr;e3;er",
+                 "fr;c1000:r:1;er;fr;c1000:r:0;er", "c10:r:2;fr;s100:r;fr;s100:r;e3;e3;er", "e1;er;fr;c1000:r:0;fr;er",
+                 "fr;R;fr;c1000:r:0;er", "f0;f0;e0;s1000:r;er"):
+        for extra in ({}, {"windowLog": 10}, {"windowLog": 10, "nbWorkers": 1, "jobSize": 1}, {"nbWorkers": 2, "jobSize": 1}):
+            out.append(dict(x=x, params=dict({"stableIn": 1}, **extra), ops=tail, extra="", mt=bool(extra.get("nbWorkers")), kind="targeted",
+                            desc="frame started by a wrapper in stable-input mode: " + tail))
     return out
 
 
@@ -857,7 +866,7 @@ def run_api(ctx, exe, cases, tag, maxcalls=30000):
 
 
 MFIELDS_A = ["view", "consumed", "produced", "ret", "streamStage", "inBuffPos", "inToCompress", "inBuffTarget", "outBuffContentSize",
-             "outBuffFlushedSize", "frameEnded", "notConsumed", "blockSize", "inBuffSize", "outBuffSize", "hint", "apos", "asize", "anull"]
+             "outBuffFlushedSize", "frameEnded", "notConsumed", "blockSize", "inBuffSize", "outBuffSize", "hint", "apos", "asize", "anull", "epos"]
 PFLAGS = {codec.P["stableIn"]: "si", codec.P["stableOut"]: "so", codec.P["format"]: "ml"}
 
 
@@ -865,7 +874,9 @@ def api_lockstep(ctx, cd, rexe, cases, budget_bytes):
     """the same API-level history on the extracted model of the entry points (coq/Stream/C10Api.v: a_call / a_stream /
     a_flushStream / a_endStream / a_reset around the tape block compressor) - single-threaded histories whose output is a
     sequence of complete frames.  Compared per call: what inBuffer_forEndFlush decides (view), consumed, produced, return value,
-    the private buffering fields, stableIn_notConsumed, the input size hint, and expectedInBuffer.pos / .size"""
+    the private buffering fields, stableIn_notConsumed, the input size hint, and expectedInBuffer.pos / .size.
+    Round 3: the calls of the model go through the stability layer (coq/Stream/C10Stab.v): the model's own record of
+    expectedInBuffer.pos is compared too, and a call the model of ZSTD_checkBufferStability refuses shows as a difference on ret"""
     elig, rcases = [], []
     for c in cases:
         recs = c.get("arecs")
@@ -962,8 +973,13 @@ def api_lockstep(ctx, cd, rexe, cases, budget_bytes):
                     (r["appliedSI"] and r["streamStage"] != 0) or r["notConsumed"] > 0):
                 if r["expPos"] != mr["apos"]:
                     diff = (i, "expectedInBuffer.pos", r["expPos"], mr["apos"])
+                elif r["expPos"] != mr.get("epos", r["expPos"]):       # round 3: the position the model of C10Stab.v records
+                    diff = (i, "expectedInBuffer.pos (recorded by the model)", r["expPos"], mr["epos"])
                 elif r["expSize"] != mr["asize"]:
                     diff = (i, "expectedInBuffer.size", r["expSize"], mr["asize"])
+            if diff is None and mr["anull"] and "epos" in mr and not isinstance(st.norm_ret(r["ret"]), tuple) and r["appliedSI"] and r["streamStage"] != 0 \
+                    and r["kind"] in "fe" and r["expPos"] != mr["epos"]:
+                diff = (i, "expectedInBuffer.pos (frame started by a wrapper)", r["expPos"], mr["epos"])
             if diff is not None:
                 break
         if diff is None and len(mrecs) != len(c["krecs"]):
